@@ -396,7 +396,7 @@ func (c *Ctx) bvbin(op string, a, b *Term) *Term {
 		if w <= 64 && c.Maybe1(a)&c.Maybe1(b) == 0 {
 			return c.bvbin("bvor", a, b)
 		}
-		return c.acNormalize("bvadd", a, b)
+		return c.linNormalize("bvadd", a, b)
 	case "bvsub":
 		if b.IsConst() && b.V == 0 {
 			return a
@@ -404,9 +404,7 @@ func (c *Ctx) bvbin(op string, a, b *Term) *Term {
 		if a == b {
 			return c.Const(0, w)
 		}
-		if b.IsConst() {
-			return c.bvbin("bvadd", a, c.Const(-b.V, w))
-		}
+		return c.linNormalize("bvsub", a, b)
 	case "bvmul":
 		if a.IsConst() && a.V == 0 || b.IsConst() && b.V == 0 {
 			return c.Const(0, w)
@@ -624,7 +622,7 @@ func (c *Ctx) BVNeg(a *Term) *Term {
 	if a.IsConst() {
 		return c.Const(-a.V, a.S.W)
 	}
-	return c.mk(&Term{Op: "bvneg", S: a.S, Args: []*Term{a}})
+	return c.linNormalize("bvsub", c.Const(0, a.S.W), a)
 }
 
 func (c *Ctx) cmp(op string, a, b *Term) *Term {
@@ -829,6 +827,12 @@ func (c *Ctx) Select(a, i *Term) *Term {
 			a = a.Args[0]
 			continue
 		}
+		// eager read-over-write through short store chains keeps reads at base arrays, so that
+		// the bit-vector abstraction of array reads stays exact; long chains (bulk copies) are
+		// left to the array theory, which instantiates them lazily
+		if storeDepth(a) <= 8 {
+			return c.Ite(c.Eq(i, j), a.Args[2], c.Select(a.Args[0], i))
+		}
 		break
 	}
 	if a.Op == "ite" {
@@ -839,6 +843,15 @@ func (c *Ctx) Select(a, i *Term) *Term {
 		return a.Args[0]
 	}
 	return c.mk(&Term{Op: "select", S: a.S.Elem, Args: []*Term{a, i}})
+}
+
+func storeDepth(a *Term) int {
+	n := 0
+	for a.Op == "store" {
+		n++
+		a = a.Args[0]
+	}
+	return n
 }
 
 // distinct reports whether two index terms are syntactically known to differ.
